@@ -96,6 +96,20 @@ Theorem C08_vm_zoneinfo_read_error : forall k,
 Proof. exact vm_zoneinfo_read_error. Qed.
 Print Assumptions C08_vm_zoneinfo_read_error.
 
+(* (d) size: the file is a list of lines of ANY length (it grows with nodes x zones x CPUs: a per-CPU
+   pagesets block in every zone); split it anywhere, e.g. after its first 32768 bytes: the call over
+   the whole file returns the demanded record, whose estimate uses the watermarks of the zones on
+   BOTH sides of the split *)
+Theorem C08_vm_zoneinfo_any_size : forall k zs1 zs2,
+  wf_kernel k = true -> has_total_free k = true -> float_exact k = true -> k_zone k = Some (zs1 ++ zs2) ->
+  virtual_memory (k_pagesize k) (k_meminfo (k_mem k)) (Some (k_zoneinfo zs1 ++ k_zoneinfo zs2)) = Val (spec_vm k) /\
+  (forall af inf sr, kbytes (k_mem k) "Active(file):" = Some af -> kbytes (k_mem k) "Inactive(file):" = Some inf ->
+     kbytes (k_mem k) "SReclaimable:" = Some sr ->
+     let wl := (low_pages zs1 + low_pages zs2) * k_pagesize k in
+     sp_fallback k = (sp_free k - wl) + ((af + inf) - Z.min ((af + inf) / 2) wl) + (sr - Z.min (sr / 2) wl)).
+Proof. exact vm_zoneinfo_any_size. Qed.
+Print Assumptions C08_vm_zoneinfo_any_size.
+
 (* the float path: for EVERY rounding operator that leaves multiples of 1024 (half units) below
    2^63 alone, the double-precision evaluation int(free - wl + (pc - min(pc/2, wl)) + (sr -
    min(sr/2.0, wl))) equals the exact formula when free, pagecache, slab are multiples of 1024,
